@@ -116,3 +116,73 @@ func Harness_C15_exhaustion() {
 	verif_Assert("C15.exh.no_duplicate", second != first)
 	verif_Cover("C15.exhausted")
 }
+
+// ---- the non-atomic fallback for stores without SetNX ------------------------------------------
+
+// c15Plain is a store without the CAS extension (as the remote gRPC store): only the base
+// interface is visible to the generator. While the generator is inside its check-then-set, the
+// double probes the generator's own lock: the fallback is only safe if nobody else - reader or
+// writer - can be between this caller's Exists and its Set.
+type c15Plain struct {
+	storage.Storage
+	probe      func() bool // true: the generator's lock could be taken for reading right now
+	unlockedAt []string
+	ops        []string
+}
+
+func (p *c15Plain) Exists(key string) (bool, error) {
+	p.ops = append(p.ops, "exists")
+	if p.probe != nil && p.probe() {
+		p.unlockedAt = append(p.unlockedAt, "exists")
+	}
+	return p.Storage.Exists(key)
+}
+func (p *c15Plain) Set(key string, v interface{}, ttl time.Duration) error {
+	p.ops = append(p.ops, "set")
+	if p.probe != nil && p.probe() {
+		p.unlockedAt = append(p.unlockedAt, "set")
+	}
+	return p.Storage.Set(key, v, ttl)
+}
+
+// Sequential part: every store operation of the fallback runs while the generator's lock is
+// held exclusively, a taken id is refused, and a second claim of the same id fails.
+func Harness_C15_fallback_locked() {
+	verif_ClockSet(int64(1) << 60)
+	ctx := context.Background()
+	plain := &c15Plain{Storage: memory.New(ctx)}
+	var st storage.Storage = plain
+	_, isCAS := st.(storage.CASStore)
+	verif_Assert("C15.fb.setup.no_cas", !isCAS)
+	g := NewClientIDGenerator(st, ctx)
+	plain.probe = func() bool {
+		if g.mu.TryRLock() {
+			g.mu.RUnlock()
+			return true
+		}
+		return false
+	}
+	id := ClientIDMin + int64(verif_Choose(2))
+	ok1, err1 := g.tryMarkAsUsed(id)
+	verif_Assert("C15.fb.first_claim", ok1 && err1 == nil)
+	ok2, err2 := g.tryMarkAsUsed(id)
+	verif_Assert("C15.fb.second_refused", !ok2 && err2 == nil)
+	verif_Assert("C15.fb.lock_held_during_store_ops", len(plain.unlockedAt) == 0)
+	verif_Assert("C15.fb.used_store", len(plain.ops) >= 3)
+	verif_Cover("C15.fb.done")
+}
+
+// Concurrent part: two callers of one generator claim the same candidate through the fallback.
+func Harness_C15_fallback_race() {
+	verif_ClockSet(int64(1) << 60)
+	ctx := context.Background()
+	plain := &c15Plain{Storage: memory.New(ctx)}
+	g := NewClientIDGenerator(plain, ctx)
+	var ok1, ok2 bool
+	verif_Spawn(func() { ok1, _ = g.tryMarkAsUsed(ClientIDMin) })
+	verif_Spawn(func() { ok2, _ = g.tryMarkAsUsed(ClientIDMin) })
+	verif_Quiesce()
+	verif_Assert("C15.fbrace.exclusive", !(ok1 && ok2))
+	verif_Assert("C15.fbrace.one_wins", ok1 || ok2)
+	verif_Cover("C15.fbrace.done")
+}
